@@ -136,6 +136,7 @@ struct front : bluetoe::nrf52_details::nrf52_radio< Tx, Rx, Crypto, front< Tx, R
     }
 
     void fire_isr() { g_hw.isr( g_hw.that ); }
+    read_buffer isr_allocate_receive_buffer() const { return this->allocate_receive_buffer(); }
 };
 
 // nrf52_radio_base leaves its flags to zero initialisation: on the device the link layer is an object of static storage duration.
